@@ -266,4 +266,25 @@ theorem call_unlock_wrong_mode (s : CSh) (t : CTh) (x o : Nat) (r : List DOp) (o
   funext y
   by_cases hy : y = o <;> simp [upd, hy]
 
+/-- `RUnlock(xs…)` that passes the lookup but whose first mutex is not read-locked (or is write-locked): the call
+panics inside `StarvingMutex.RUnlock`; nothing but the internal mutex of that object has changed. -/
+theorem call_runlock_wrong_mode (s : CSh) (t : CTh) (xs : List Nat) (o : Nat) (os : List Nat) (r : List DOp)
+    (others : List CTh) (hc : t.ctl = .idle) (hs : t.script = .runlock xs :: r) (hd : s.dm = false)
+    (hl : lookAll s [] xs = some (o :: os)) (hm : (s.heap o).m = false)
+    (hw : (s.heap o).readers = 0 ∨ (s.heap o).writer = true) :
+    ∃ t', runSched sys (s, t :: others) (List.replicate 5 (0, 0)) =
+        ({ s with heap := upd s.heap o { s.heap o with m := true } }, t' :: others) ∧
+      t'.ipc = .dead ∧ t'.script = r := by
+  obtain ⟨heap, ent, cnt, next, dm⟩ := s
+  obtain ⟨ctl, iop, curEnt, cur, ipc, rd, wr, held, hobj, script⟩ := t
+  simp only at hc hs hd hm hw
+  subst hc hs hd
+  have hl' : lookAll { heap := heap, ent := ent, cnt := cnt, next := next, dm := true } [] xs = some (o :: os) := by
+    rw [lookAll_congr (s1 := { heap := heap, ent := ent, cnt := cnt, next := next, dm := true })
+      (s2 := { heap := heap, ent := ent, cnt := cnt, next := next, dm := false }) rfl rfl]; exact hl
+  simp [runSched, sys, step, hl', startInner, start, proj, mxStepG, hm, upd, hw, List.replicate]
+  refine ⟨_, ⟨?_, rfl⟩, rfl, rfl⟩
+  funext y
+  by_cases hy : y = o <;> simp [upd, hy]
+
 end Hive.SyncMutex.Comp
